@@ -44,6 +44,11 @@ impl ResolveLocalEnv {
     }
 }
 
+/// does a one-segment path spell a local binder that is in scope?
+fn names_local(path: &ast::Path, env: &ResolveLocalEnv) -> bool {
+    path.len() == 1 && path.last_ident().is_some_and(|id| env.rfind(id).is_some())
+}
+
 struct ResolutionContext<'a> {
     builtin_names: &'a HashMap<String, hir::BuiltinId>,
     def_names: &'a HashMap<String, hir::DefId>,
@@ -623,7 +628,9 @@ impl NameResolution {
     ) -> hir::ExprId {
         match expr {
             ast::Expr::EPath { path, astptr } => {
-                if let Some(constructor) = self.constructor_path_for(path, ctx) {
+                if !names_local(path, env)
+                    && let Some(constructor) = self.constructor_path_for(path, ctx)
+                {
                     return self.alloc_expr_with_ptr(
                         hir_table,
                         *astptr,
@@ -852,6 +859,24 @@ impl NameResolution {
                 args,
                 astptr,
             } => {
+                if names_local(constructor, env) {
+                    // lowering classified the identifier as a variant by its spelling alone; a
+                    // binder of that name in scope (parameter, let, pattern variable) hides it
+                    let local = ast::Expr::EPath {
+                        path: constructor.clone(),
+                        astptr: *astptr,
+                    };
+                    let local = if args.is_empty() {
+                        local
+                    } else {
+                        ast::Expr::ECall {
+                            func: Box::new(local),
+                            args: args.clone(),
+                            astptr: *astptr,
+                        }
+                    };
+                    return self.resolve_expr(&local, env, ctx, hir_table);
+                }
                 let new_args = args
                     .iter()
                     .map(|arg| self.resolve_expr(arg, env, ctx, hir_table))
@@ -1016,6 +1041,7 @@ impl NameResolution {
             }
             ast::Expr::ECall { func, args, astptr } => {
                 if let ast::Expr::EPath { path, .. } = func.as_ref()
+                    && !names_local(path, env)
                     && let Some(constructor) = self.constructor_path_for(path, ctx)
                 {
                     let new_args = args
